@@ -30,6 +30,20 @@ func c18Sha1(b string) string {
 	return hex.EncodeToString(h[:])
 }
 
+// c18ScratchDir: a directory for the many small files of the unit layers; on a
+// memory file system when there is one (the files are rewritten ~10^5 times),
+// else below ctx.Work. cleanup removes it.
+func c18ScratchDir(ctx *Ctx, name string) (string, func()) {
+	if d, err := os.MkdirTemp("/dev/shm", "verif-"+name+"-"); err == nil {
+		return d, func() { os.RemoveAll(d) }
+	}
+	d := filepath.Join(ctx.Work, name)
+	if err := os.MkdirAll(d, 0o755); err != nil {
+		return "", func() {}
+	}
+	return d, func() { os.RemoveAll(d) }
+}
+
 // ---------- unit: digests ----------
 
 // c18CheckDigests: for every body, sha1(model bytes) = sha1(spec bytes) = implementation.
@@ -37,9 +51,16 @@ func c18CheckDigests(ctx *Ctx, res *Result, bodies []string, kind string) {
 	reqs := make([]string, len(bodies))
 	impl := make([]string, len(bodies))
 	panicked := make([]string, len(bodies))
+	dir, cleanup := c18ScratchDir(ctx, "c18dig")
+	defer cleanup()
+	if dir == "" {
+		res.Broken = "no scratch directory"
+		return
+	}
+	path := filepath.Join(dir, "patch-aa")
 	for i, b := range bodies { // sequential: the shim uses the global G
 		reqs[i] = "dig " + hx(b)
-		impl[i], panicked[i] = pkglint.VerifComputePatchSha1Hex(b)
+		impl[i], panicked[i] = pkglint.VerifComputePatchSha1Hex(path, b) // through Load(file, 0), as checkPatchSha1 does
 	}
 	ans, err := runOracle(ctx, "c18", reqs)
 	if err != nil {
@@ -84,6 +105,9 @@ func c18CheckDigests(ctx *Ctx, res *Result, bodies []string, kind string) {
 		if strings.Contains(b, "\r") && strings.Contains(b, "$NetBSD") {
 			res.Count("unit.tag_with_cr", 1)
 		}
+		if b != "" && (b[0] >= 0x80 || b[0] < 0x20) && !strings.Contains(strings.SplitAfter(b, "\n")[0], "$NetBSD") {
+			res.Count("unit.hostile_first_byte_hashed", 1)
+		}
 		if i == 777 || i == len(bodies)-5 {
 			res.Sample(map[string]any{"kind": kind, "body": q(b), "filtered": q(spec), "sha1": impl[i]})
 		}
@@ -93,7 +117,12 @@ func c18CheckDigests(ctx *Ctx, res *Result, bodies []string, kind string) {
 	res.Count(kind+"_bodies", len(bodies))
 }
 
-func c18Exhaustive(maxTok int) []string {
+// second unit alphabet: hostile bytes at position 0 and at line starts
+var c18Tokens2 = []string{"\xef\xbb\xbf", "\xc3\xbc", "\x00", "\r", "\f", "x", "\n", "$NetBSD"}
+
+func c18Exhaustive(maxTok int) []string { return c18ExhaustiveOver(c18Tokens, maxTok) }
+
+func c18ExhaustiveOver(c18Tokens []string, maxTok int) []string {
 	seen := map[string]bool{}
 	var out []string
 	cur := []string{""}
@@ -117,6 +146,8 @@ func c18Exhaustive(maxTok int) []string {
 	}
 }
 
+var c18Hostile = []string{"\xef\xbb\xbf", "\xef\xbb\xbf\xef\xbb\xbf", "\xfe\xff", "\xff\xfe", "\xc3\xbc", "\xe2\x80\x8b", "\x00", "\r", "\f", "\v", "\x1b", "\xef\xbb", " ", "\t"}
+
 // c18RandomBody: patch-like text with tags anywhere, CRLF, lone CR, empty lines,
 // non-ASCII bytes, with and without final newline; or a raw token string.
 func c18RandomBody(rng *Rng) string {
@@ -124,8 +155,12 @@ func c18RandomBody(rng *Rng) string {
 	switch rng.Intn(4) {
 	case 0:
 		n := rng.Intn(40)
+		toks := c18Tokens
+		if rng.Chance(40) {
+			toks = c18Tokens2
+		}
 		for i := 0; i < n; i++ {
-			sb.WriteString(Pick(rng, c18Tokens))
+			sb.WriteString(Pick(rng, toks))
 		}
 	default:
 		lines := []string{"$NetBSD$", "", "Fix the build.", "", "--- src/file.c.orig\t2020-01-01 00:00:00.000000000 +0000", "+++ src/file.c", "@@ -1,3 +1,3 @@", " context", "-old line", "+new line", " more"}
@@ -153,7 +188,13 @@ func c18RandomBody(rng *Rng) string {
 			if rng.Chance(5) {
 				l += string([]byte{byte(128 + rng.Intn(128)), byte(rng.Intn(256))})
 			}
+			if rng.Chance(6) { // hostile bytes at the start of a line
+				l = Pick(rng, c18Hostile) + l
+			}
 			out = append(out, l)
+		}
+		if rng.Chance(25) { // hostile bytes at position 0 of the file
+			out[0] = Pick(rng, c18Hostile) + out[0]
 		}
 		eol := "\n"
 		if rng.Chance(15) {
@@ -173,9 +214,198 @@ func c18RandomBody(rng *Rng) string {
 	return sb.String()
 }
 
+// c18NearMisses: strings that are almost the digest d (40 lower-case hex digits)
+// but not equal to it; every one must be reported and fixed to exactly d.
+// kind "blank" is not an entry at all for the distinfo grammar (see c18BlankKinds).
+func c18NearMisses(d string) map[string]string {
+	m := map[string]string{}
+	if u := strings.ToUpper(d); u != d {
+		m["upper"] = u
+		mixed := []byte(d)
+		flipped := false
+		for i, c := range mixed {
+			if c >= 'a' && c <= 'f' && (!flipped || i%3 == 0) {
+				mixed[i] = c - 32
+				flipped = true
+			}
+		}
+		if string(mixed) != u {
+			m["mixed"] = string(mixed)
+		} else { // every letter got flipped: keep only the first one upper-case
+			one := []byte(d)
+			for i, c := range one {
+				if c >= 'a' && c <= 'f' {
+					one[i] = c - 32
+					break
+				}
+			}
+			m["mixed"] = string(one)
+		}
+	}
+	for _, pos := range []int{0, 19, 39} {
+		b := []byte(d)
+		if b[pos] == 'f' {
+			b[pos] = '0'
+		} else if b[pos] == '9' {
+			b[pos] = 'a'
+		} else {
+			b[pos]++
+		}
+		m[fmt.Sprintf("digit%d", pos)] = string(b)
+	}
+	m["truncated"] = d[:39]
+	m["truncated-front"] = d[1:]
+	m["extended"] = d + "0"
+	m["extended-front"] = "0" + d
+	m["zero"] = strings.Repeat("0", 40)
+	return m
+}
+
+var c18NearKinds = []string{"upper", "mixed", "digit0", "digit19", "digit39", "truncated", "truncated-front", "extended", "extended-front", "zero"}
+
+// ---------- unit: the distinfo checker on one entry ----------
+
+type c18Entry struct {
+	body string
+	kind string // correct | one of c18NearKinds | blank-after | blank-before
+}
+
+// c18CheckEntries drives CheckLinesDistinfo (shim) on a package with one patch and
+// one SHA1 entry, in default and in --autofix mode, against the reference digest
+// (Go SHA-1 of the extracted makepatchsum_filter of the raw file bytes) and the
+// extracted check_patch_sha1.
+func c18CheckEntries(ctx *Ctx, res *Result, entries []c18Entry) {
+	root, cleanup := c18ScratchDir(ctx, "c18unit")
+	defer cleanup()
+	pkgDir := filepath.Join(root, "cat", "pkg")
+	if err := os.MkdirAll(filepath.Join(pkgDir, "patches"), 0o755); err != nil {
+		res.Broken = err.Error()
+		return
+	}
+	patchPath := filepath.Join(pkgDir, "patches", "patch-aa")
+	reqs := make([]string, len(entries))
+	for i, e := range entries {
+		reqs[i] = "dig " + hx(e.body)
+	}
+	ans, err := runOracle(ctx, "c18", reqs)
+	if err != nil {
+		res.Broken = err.Error()
+		return
+	}
+	const head = "$NetBSD$\n\n"
+	var chkReqs []string
+	var chkWant []string
+	for i, e := range entries {
+		f := strings.Fields(ans[i])
+		if len(f) != 2 {
+			res.Broken = "oracle answer " + q(ans[i])
+			return
+		}
+		ref := c18Sha1(unhx(f[1]))
+		hash, sep1, sep2 := ref, "", ""
+		switch e.kind {
+		case "correct":
+		case "blank-after":
+			sep2 = " "
+		case "blank-before":
+			sep1 = " "
+		default:
+			h, ok := c18NearMisses(ref)[e.kind]
+			if !ok {
+				continue // e.g. a digest without letters has no case variant
+			}
+			hash = h
+		}
+		line := "SHA1 (patch-aa) = " + sep1 + hash + sep2 + "\n"
+		distinfo := head + line
+		rep := map[string]any{"kind": "entry", "body": hx(e.body), "entry": e.kind, "distinfo": hx(distinfo), "makepatchsum": ref}
+		size := 1 + len(e.body)
+		if err := os.WriteFile(patchPath, []byte(e.body), 0o644); err != nil {
+			res.Broken = err.Error()
+			return
+		}
+		out1, after1, p1 := pkglint.VerifCheckDistinfo(root, pkgDir, distinfo, false)
+		out2, after2, p2 := pkglint.VerifCheckDistinfo(root, pkgDir, distinfo, true)
+		if p1 != "" || p2 != "" {
+			rep["impl"] = p1 + p2
+			res.AddViolation(Violation{Key: "C18/entry/panic", What: fmt.Sprintf("CheckLinesDistinfo panics on entry %q for patch %q: %s%s", line, e.body, p1, p2),
+				FoundInput: true, Size: size, Replay: rep})
+			continue
+		}
+		rep["output"], rep["output_autofix"], rep["after_autofix"] = q(out1), q(out2), q(after2)
+		reported := strings.Contains(out1, "distinfo:3:")
+		res.Count("entry."+e.kind, 1)
+		res.Evaluations += 2
+		res.TracesValidated += 2
+		if after1 != distinfo {
+			res.AddViolation(Violation{Key: "C18/entry/default-mode-wrote-file", What: fmt.Sprintf("default mode changed distinfo %q -> %q", distinfo, after1), FoundInput: true, Size: size, Replay: rep})
+			continue
+		}
+		switch {
+		case e.kind == "correct":
+			if reported {
+				res.AddViolation(Violation{Key: "C18/accept/correct-hash-reported",
+					What:       fmt.Sprintf("patch %q: the entry %q holds the makepatchsum digest but is reported: %s", e.body, line, c18Grep(out1, "distinfo:3:")),
+					FoundInput: true, Size: size, Replay: rep})
+			} else if after2 != distinfo {
+				res.AddViolation(Violation{Key: "C18/fix/correct-entry-rewritten",
+					What:       fmt.Sprintf("patch %q: -F rewrote the correct entry %q: %q", e.body, line, after2),
+					FoundInput: true, Size: size, Replay: rep})
+			}
+		case strings.HasPrefix(e.kind, "blank"):
+			// not an entry for the distinfo grammar: it must not be accepted silently;
+			// -F may leave the line alone but must not write a wrong digest
+			if !reported {
+				res.AddViolation(Violation{Key: "C18/accept/wrong-hash-silent",
+					What:       fmt.Sprintf("patch %q: the line %q (blank next to the hash) is accepted silently", e.body, line),
+					FoundInput: true, Size: size, Replay: rep})
+			} else if after2 != distinfo && after2 != head+"SHA1 (patch-aa) = "+ref+"\n" {
+				res.AddViolation(Violation{Key: "C18/fix/wrote-other-digest",
+					What:       fmt.Sprintf("patch %q: -F turned %q into %q", e.body, distinfo, after2),
+					FoundInput: true, Size: size, Replay: rep})
+			}
+		default:
+			want := head + "SHA1 (patch-aa) = " + ref + "\n"
+			if !reported {
+				res.AddViolation(Violation{Key: "C18/accept/wrong-hash-silent",
+					What:       fmt.Sprintf("patch %q: distinfo records %s (%s variant of the makepatchsum digest %s), pkglint is silent", e.body, hash, e.kind, ref),
+					FoundInput: true, Size: size, Replay: rep})
+			} else if after2 != want {
+				key := "C18/fix/wrote-other-digest"
+				if after2 == distinfo {
+					key = "C18/fix/not-fixed"
+				}
+				res.AddViolation(Violation{Key: key,
+					What:       fmt.Sprintf("patch %q, entry %q (%s): after -F distinfo is %q, expected %q", e.body, line, e.kind, after2, want),
+					FoundInput: true, Size: size, Replay: rep})
+			}
+			// the model's verdict for the same triple
+			chkReqs = append(chkReqs, "chk "+hx(e.body)+" "+hx(hash)+" "+hx(ref))
+			chkWant = append(chkWant, fmt.Sprintf("%v|%s|%s", reported, e.body, hash))
+		}
+	}
+	if len(chkReqs) > 0 {
+		cans, err := runOracle(ctx, "c18", chkReqs)
+		if err != nil {
+			res.Broken = err.Error()
+			return
+		}
+		for i, a := range cans {
+			parts := strings.SplitN(chkWant[i], "|", 3)
+			modelReports := strings.HasPrefix(a, "differs ")
+			if (parts[0] == "true") != modelReports {
+				res.AddViolation(Violation{Key: "C18/correspondence/check",
+					What:       fmt.Sprintf("patch %q hash %s: implementation reported=%s, model %s", parts[1], parts[2], parts[0], a),
+					FoundInput: false, Size: 1 + len(parts[1]),
+					Replay:     map[string]any{"kind": "entry-model", "body": hx(parts[1]), "hash": parts[2], "broken": "correspondence checkPatchSha1 = Model.PatchSum.check_patch_sha1"}})
+			}
+		}
+	}
+}
+
 // ---------- unit: Autofix.Replace ----------
 
-type c18Repl struct{ text, from, to string }
+type c18Repl struct{ text, from, to, prefix string }
 
 func c18CheckReplace(ctx *Ctx, res *Result, cases []c18Repl) {
 	dir := filepath.Join(ctx.Work, "c18repl")
@@ -188,14 +418,19 @@ func c18CheckReplace(ctx *Ctx, res *Result, cases []c18Repl) {
 	var kept []c18Repl
 	var impl []string
 	for _, c := range cases {
-		_, fixes, _, _, panicked := pkglint.VerifSaveScript(path, c.text, false, []pkglint.VerifFixOp{{Line: 0, Kind: "replace", From: c.from, To: c.to}})
+		op := pkglint.VerifFixOp{Line: 0, Kind: "replace", From: c.from, To: c.to}
+		if c.prefix != "" {
+			op = pkglint.VerifFixOp{Line: 0, Kind: "replaceafter", From: c.from, To: c.to, Prefix: c.prefix}
+		}
+		_, fixes, _, _, panicked := pkglint.VerifSaveScript(path, c.text, false, []pkglint.VerifFixOp{op})
 		if panicked != "" || len(fixes) == 0 || !fixes[0].HasFix {
 			res.AddViolation(Violation{Key: "C18/replace/panic", What: fmt.Sprintf("Replace(%q,%q) on %q: %s", c.from, c.to, c.text, panicked), FoundInput: false,
 				Replay: map[string]any{"kind": "replace", "text": hx(c.text), "from": hx(c.from), "to": hx(c.to), "broken": "Autofix.Replace could not be driven"}})
 			continue
 		}
 		raws := strings.SplitAfter(c.text, "\n")
-		reqs = append(reqs, "repl "+hx(c.from)+" "+hx(c.to)+" "+hx(raws[0]))
+		// ReplaceAfter(prefix, from, to) = the same rule on prefix+from / prefix+to (Model: autofix_replace_after)
+		reqs = append(reqs, "repl "+hx(c.prefix+c.from)+" "+hx(c.prefix+c.to)+" "+hx(raws[0]))
 		kept = append(kept, c)
 		impl = append(impl, strings.Join(fixes[0].Texts, ""))
 	}
@@ -214,7 +449,7 @@ func c18CheckReplace(ctx *Ctx, res *Result, cases []c18Repl) {
 		}
 		if model != impl[i] {
 			res.AddViolation(Violation{Key: "C18/correspondence/replace",
-				What:       fmt.Sprintf("Replace(%q,%q) on %q: implementation %q, model %q", c.from, c.to, raw0, impl[i], model),
+				What:       fmt.Sprintf("ReplaceAfter(%q,%q,%q) on %q: implementation %q, model %q", c.prefix, c.from, c.to, raw0, impl[i], model),
 				FoundInput: false, Size: len(c.text) + len(c.from) + len(c.to),
 				Replay: map[string]any{"kind": "replace", "text": hx(c.text), "from": hx(c.from), "to": hx(c.to), "broken": "correspondence Autofix.Replace = Model.PatchSum.autofix_replace"}})
 		}
@@ -236,7 +471,11 @@ func c18ReplaceCases(rng *Rng, n int) []c18Repl {
 		if rng.Chance(10) {
 			hash = from + from
 		}
-		out = append(out, c18Repl{"SHA1 (" + name + ") = " + hash + "\n", from, Pick(rng, []string{"ffff", from, "", "0" + from})})
+		prefix := ""
+		if rng.Chance(50) {
+			prefix = ") = " // the call checkPatchSha1 makes
+		}
+		out = append(out, c18Repl{"SHA1 (" + name + ") = " + hash + "\n", from, Pick(rng, []string{"ffff", from, "", "0" + from}), prefix})
 	}
 	return out
 }
@@ -404,6 +643,9 @@ func c18RunScenario(ctx *Ctx, res *Result, root string, sc c18Scenario, refDiges
 				fmt.Sprintf("%s: distinfo:%d records %s, makepatchsum gives %s, pkglint is silent", p.name, line, p.hash, ref),
 				map[string]any{"output": q(out1)})
 		}
+		if strings.HasPrefix(p.kind, "near:") {
+			res.Count("w.entries_near", 1)
+		}
 		res.Count("w.entries_"+p.kind, 1)
 	}
 	res.TracesValidated++
@@ -464,6 +706,13 @@ func c18RunScenario(ctx *Ctx, res *Result, root string, sc c18Scenario, refDiges
 		}
 		want := fmt.Sprintf("SHA1 (%s) = %s\n", p.name, ref)
 		got := alines[firstEntry-1+i]
+		if strings.HasPrefix(p.kind, "blank") && (got == blines[firstEntry-1+i] ||
+			got == strings.Replace(blines[firstEntry-1+i], strings.TrimSpace(p.hash), ref, 1)) {
+			// a blank next to the hash: not an entry for the distinfo grammar ("Invalid line"),
+			// reported in run 1 (checked above); -F may leave it alone (AutofixDistinfo may still
+			// update the digest inside it when the patch file itself was rewritten)
+			continue
+		}
 		if got != want {
 			key := "C18/fix/wrote-other-digest"
 			if got == blines[firstEntry-1+i] {
@@ -531,17 +780,21 @@ func c18RandomScenario(rng *Rng) c18Scenario {
 	names := []string{"patch-aa", "patch-ab", "patch-src_file.c", "patch-configure"}
 	for i := 0; i < n; i++ {
 		p := c18Patch{name: names[i], body: c18RandomBody(rng)}
-		switch rng.Intn(3) {
-		case 0:
+		switch x := rng.Intn(100); {
+		case x < 30:
 			p.kind = "correct" // filled in below, needs the oracle
-		case 1:
+		case x < 48:
 			p.kind = "stale"
-		default:
+		case x < 60:
 			p.kind = "wrong"
 			p.hash = c18Sha1(fmt.Sprintf("wrong%d", rng.Next()))
 			if rng.Chance(10) {
 				p.hash = strings.ToUpper(p.hash)
 			}
+		case x < 95:
+			p.kind = "near:" + Pick(rng, c18NearKinds) // a near miss of the correct digest
+		default:
+			p.kind = Pick(rng, []string{"blank-after", "blank-before"})
 		}
 		sc.patches = append(sc.patches, p)
 	}
@@ -595,13 +848,24 @@ func c18WholeRuns(ctx *Ctx, res *Result, scs []c18Scenario) {
 			p := &scs[si].patches[pi]
 			switch {
 			case p.hash != "":
-			case p.kind == "correct":
+			case p.kind == "correct" || strings.HasPrefix(p.kind, "near:") || strings.HasPrefix(p.kind, "blank"):
 				d, err := refDigest(p.body)
 				if err != nil {
 					res.Broken = err.Error()
 					return
 				}
 				p.hash = d
+				if strings.HasPrefix(p.kind, "near:") {
+					if h, ok := c18NearMisses(d)[p.kind[5:]]; ok {
+						p.hash = h
+					} else {
+						p.kind = "correct"
+					}
+				} else if p.kind == "blank-after" {
+					p.hash = d + " "
+				} else if p.kind == "blank-before" {
+					p.hash = " " + d
+				}
 			default: // stale: the digest of the body before an edit
 				d, err := refDigest(p.body + "+one more line\n")
 				if err != nil {
@@ -644,11 +908,18 @@ func c18WholeRuns(ctx *Ctx, res *Result, scs []c18Scenario) {
 // ---------- entry points ----------
 
 func runC18(ctx *Ctx) *Result {
-	res := &Result{Rule: "unit: every patch body of <= L tokens over {$NetBSD, $, N, x, LF, CR} (distinct strings), then seeded random bodies (patch-like text with tags anywhere, CRLF, lone CR, empty lines, non-ASCII, with/without final newline; raw token strings); non-trivial = the body contains $NetBSD (a line is removed); distinct by body. Replace: distinfo entry lines with the stale hash once / twice / overlapping. Whole runs: generated packages with 1-4 patches, entries correct / stale / wrong, plus directed corner scenarios; each = default run, -F, default run of the real binary."}
+	res := &Result{Rule: "unit: every patch body of <= L tokens over {$NetBSD, $, N, x, LF, CR} (distinct strings), then seeded random bodies (patch-like text with tags anywhere, CRLF, lone CR, empty lines, non-ASCII, with/without final newline; raw token strings); then every body of <= L2 tokens over the second alphabet {BOM, U+00FC, NUL, CR, FF, x, LF, $NetBSD} (hostile bytes at position 0 and at line starts); every digest goes through Load(file, 0); non-trivial = the body contains $NetBSD (a line is removed); distinct by body. Entries: CheckLinesDistinfo (shim) on one patch + one SHA1 entry in default and --autofix mode, entry = the correct digest or a near miss of it (upper / mixed case, one digit changed at 3 positions, truncated / extended by one digit at either end, all zero, blank next to the hash). Replace: distinfo entry lines with the stale hash once / twice / overlapping. Whole runs: generated packages with 1-4 patches, entries correct / stale / wrong, plus directed corner scenarios; each = default run, -F, default run of the real binary."}
 	rng := NewRng(ctx.Seed)
 	maxTok, nrand, nrepl, npkg := 6, 10000, 2000, 200
+	maxTok2, entryTok, nentryRand := 4, 3, 300
 	if ctx.Tier == "thorough" {
 		maxTok, nrand, nrepl, npkg = 7, 300000, 50000, 3000
+		maxTok2, entryTok, nentryRand = 6, 4, 5000
+	}
+	t0 := time.Now()
+	lap := func(what string) {
+		res.Count("seconds."+what, int(time.Since(t0).Seconds()+0.5))
+		t0 = time.Now()
 	}
 	exh := c18Exhaustive(maxTok)
 	c18CheckDigests(ctx, res, exh, "exhaustive")
@@ -673,7 +944,44 @@ func runC18(ctx *Ctx) *Result {
 	if res.Broken != "" {
 		return res
 	}
+	// second alphabet: hostile bytes (BOM, other multi-byte sequences, NUL, CR, FF) at position 0 and at line starts
+	exh2 := c18ExhaustiveOver(c18Tokens2, maxTok2)
+	c18CheckDigests(ctx, res, exh2, "exhaustive2")
+	if res.Broken != "" {
+		return res
+	}
+	for _, b := range exh2 {
+		if strings.Contains(b, "$NetBSD") {
+			seen[b] = true
+		}
+	}
 	res.DistinctNontrivial = len(seen)
+
+	// the distinfo checker itself on one entry: correct digest and its near misses
+	var entries []c18Entry
+	allKinds := append([]string{"correct", "blank-after", "blank-before"}, c18NearKinds...)
+	ebodies := append(c18ExhaustiveOver(c18Tokens2, entryTok), c18ExhaustiveOver(c18Tokens, entryTok)...)
+	for i := 0; i < nentryRand; i++ {
+		ebodies = append(ebodies, c18RandomBody(rng))
+	}
+	for i, b := range ebodies {
+		if i%8 == 0 {
+			for _, k := range allKinds {
+				entries = append(entries, c18Entry{b, k})
+			}
+			continue
+		}
+		entries = append(entries, c18Entry{b, "correct"})
+		for k := 0; k < 3; k++ {
+			entries = append(entries, c18Entry{b, c18NearKinds[(i+k*3)%len(c18NearKinds)]})
+		}
+	}
+	lap("digests")
+	c18CheckEntries(ctx, res, entries)
+	lap("entries")
+	if res.Broken != "" {
+		return res
+	}
 	c18CheckReplace(ctx, res, c18ReplaceCases(rng, nrepl))
 	if res.Broken != "" {
 		return res
@@ -682,13 +990,17 @@ func runC18(ctx *Ctx) *Result {
 	for i := 0; i < npkg; i++ {
 		scs = append(scs, c18RandomScenario(rng))
 	}
+	lap("replace")
 	c18WholeRuns(ctx, res, scs)
+	lap("whole_runs")
 	res.Exhaustive = false
 	res.Count("exhaustive_max_tokens", maxTok)
 	floors := map[string]int{
 		"unit.bodies_with_tag": 5000, "unit.tag_and_kept_bytes": 2000, "unit.tag_in_unterminated_tail": 500, "unit.tag_with_cr": 500,
 		"replace.fired": 200, "replace.refused": 200,
-		"w.packages": npkg * 9 / 10, "w.entries_correct": npkg / 4, "w.entries_stale": npkg / 4, "w.entries_wrong": npkg / 4, "w.entries_fixed": npkg / 3,
+		"unit.hostile_first_byte_hashed": 1000,
+		"entry.correct": 500, "entry.upper": 200, "entry.mixed": 200, "entry.digit0": 200, "entry.digit39": 200, "entry.truncated": 200, "entry.extended": 200, "entry.blank-after": 50,
+		"w.packages": npkg * 9 / 10, "w.entries_correct": npkg / 4, "w.entries_stale": npkg / 5, "w.entries_wrong": npkg / 8, "w.entries_near": npkg / 3, "w.entries_near:upper": npkg / 40, "w.entries_near:mixed": npkg / 40, "w.entries_fixed": npkg / 3,
 	}
 	for _, k := range sortedKeys(floors) {
 		if n, _ := res.Distribution[k].(int); n < floors[k] && res.Broken == "" && len(res.Violations) == 0 {
@@ -708,11 +1020,19 @@ func replayC18(ctx *Ctx, rep map[string]any) *Result {
 	case "digest":
 		b, _ := rep["body"].(string)
 		c18CheckDigests(ctx, res, []string{unhx(b)}, "replay")
+	case "entry":
+		b, _ := rep["body"].(string)
+		k, _ := rep["entry"].(string)
+		c18CheckEntries(ctx, res, []c18Entry{{unhx(b), k}})
 	case "replace":
 		t, _ := rep["text"].(string)
 		f, _ := rep["from"].(string)
 		to, _ := rep["to"].(string)
-		c18CheckReplace(ctx, res, []c18Repl{{unhx(t), unhx(f), unhx(to)}})
+		pf, _ := rep["prefix"].(string)
+		if pf == "" {
+			pf = "-"
+		}
+		c18CheckReplace(ctx, res, []c18Repl{{unhx(t), unhx(f), unhx(to), unhx(pf)}})
 	case "package":
 		sc := c18Scenario{}
 		sc.kind, _ = rep["scenario"].(string)
